@@ -4,6 +4,12 @@ Source tie (DESIGN §14) for C13 — serialised dependencies round-trip through 
 import HtmlVerif.Generated.Src
 import HtmlVerif.Lemmas.SrcC13
 import HtmlVerif.Props.SrcC10b
+import HtmlVerif.Lemmas.SrcRenderC13
+import HtmlVerif.Props.SrcC09
+import HtmlVerif.Props.SrcC10
+import HtmlVerif.Props.SrcC14
+import HtmlVerif.Props.SrcRender
+import HtmlVerif.Props.C09
 
 set_option linter.unusedVariables false
 set_option linter.unusedSimpArgs false
@@ -72,6 +78,26 @@ theorem src_rebuild_serBodyC13 (h : HTMLDependency_init_available = true) (h1 : 
       newDepC13]
     refine hi.trans ?_
     cases hh : d.head <;> simp [headVC13, HeadV.res, embSDepC13, depArgVC13, hh, embDepObjC10b])
+
+
+/-- a body that is not JSON (and cannot be JSON outside the model's fragment either): `json.loads` raises JSONDecodeError,
+    a ValueError — what `recover` says -/
+theorem src_rebuild_notjsonC13 (G : Globals) (e : SDep → PVal) (b : Str) (hp : jsonParse b = none)
+    (ho : jsonOutsideC13 b = false) :
+    projDepC10b <$> rebuildC13 G b = embRes e (recover b) := by
+  simp [rebuildC13, pyJsonLoadsC13, hp, ho, recover, embRes, embErr]
+
+/-- a body that is JSON but not an object (`null`, `true`, a string, an array): `HTMLDependency(**x)` raises TypeError
+    ("argument after ** must be a mapping") — what `recover` says -/
+theorem src_rebuild_nonobjC13 (G : Globals) (e : SDep → PVal) (b : Str) (j : Json) (hp : jsonParse b = some j)
+    (hj : ∀ ms, j ≠ .obj ms) :
+    projDepC10b <$> rebuildC13 G b = embRes e (recover b) := by
+  cases j with
+  | obj ms => exact absurd rfl (hj ms)
+  | null => simp [rebuildC13, pyJsonLoadsC13, hp, recover, embRes, embErr, embJsonC13, pyCallKwC13, depOfJson]
+  | bool v => simp [rebuildC13, pyJsonLoadsC13, hp, recover, embRes, embErr, embJsonC13, pyCallKwC13, depOfJson]
+  | str v => simp [rebuildC13, pyJsonLoadsC13, hp, recover, embRes, embErr, embJsonC13, pyCallKwC13, depOfJson]
+  | arr v => simp [rebuildC13, pyJsonLoadsC13, hp, recover, embRes, embErr, embJsonC13, pyCallKwC13, depOfJson]
 
 
 /-- … against the model: if rebuilding each body that is kept does what the model's `recover` says (`hrec`: discharged for
@@ -224,5 +250,186 @@ theorem src_textdoc_init_modelC13 (h : HTMLTextDocument_init_available = true) (
       simpa using hc
     simp only [hc', if_true, map_error, embRes, embErr]
 
+
+/-- `TagList.render()` as the source has it, on a list of *plain* nodes (tags, text, `HTML`, self-rendering objects, metadata
+    nodes; no dependency object, no un-expanded tagifiable object — Lemmas/SrcRenderC13.lean): `tagify()` gives the list
+    back (`src_tagify_list`), `get_dependencies()` finds nothing (`src_get_dependencies_list`), and the markup is
+    `renderList` (`src_render_list`) — the three ties of C09 / C10 / C05 composed through the source text of `render` -/
+theorem src_taglist_render_plainC13 (h : TagList_render_available = true)
+    (ht1 : Tag_tagify_available = true) (ht2 : TagList_tagify_available = true)
+    (hd1 : Tag_get_dependencies_available = true) (hd2 : TagList_get_dependencies_available = true)
+    (hr : resolve_dependencies_available = true)
+    (hg1 : Tag_get_html_string_available = true) (hg2 : TagList_get_html_string_available = true)
+    (hn : normalize_text_available = true) (he : html_escape_available = true) (hs : HTML_as_string_available = true)
+    (cfg : Cfg) (ht : keysPlain cfg.textTbl = true) (ha : keysPlain cfg.attrTbl = true)
+    (ks : Nodes) (hp : plainKidsC13 ks = true) (fuel : Nat) (hf : 2 * kidsDepth ks + 2 ≤ fuel) :
+    TagList_render (globalsOf cfg) fuel (tagListOf (embNodes ks))
+      = .ok (.dict [(['d', 'e', 'p', 'e', 'n', 'd', 'e', 'n', 'c', 'i', 'e', 's'], .list []),
+                    (['h', 't', 'm', 'l'], .str (renderList cfg ks 0 ['\n'] true true))]) := by
+  first
+  | exact absurd h (by decide)
+  | skip
+  all_goals (
+    obtain ⟨f, rfl⟩ : ∃ f, fuel = f + 1 := ⟨fuel - 1, by omega⟩
+    rw [TagList_render]
+    have htag := plainKids_tagifiedC13 ks hp
+    have e1 : embNodes ks = embTs tvSpec ks := (embTs_plainC13 tvSpec ks hp).symm
+    have e2 : tagifyNodes ks = ks := by rw [C09.C09_tagify_is_spec, C09.C09_tagified_fixed ks htag]
+    have hcls : ∀ l, pyClassOf (tagListOf l) = "TagList" := fun _ => rfl
+    have s1 := src_tagify_list ht1 ht2 (globalsOf cfg) tvSpec tvSpec_ok ks f (by omega)
+    have s2 := src_get_dependencies_list hd1 hd2 hr (globalsOf cfg) tvSpec ks f (by omega) true
+    have s3 : TagList_get_html_string (globalsOf cfg) f (tagListOf (embNodes ks)) (PVal.int 0) (PVal.str [Char.ofNat 10])
+        (PVal.bool true) (PVal.bool true)
+        = if ks.hasTobjKids then .error .runtimeError else .ok (.str (renderList cfg ks 0 ['\n'] true true)) :=
+      src_render_list hg1 hg2 hn he hs cfg ht ha ks f (by omega) 0 ['\n'] true true
+    rw [e2] at s1
+    simp only [Nodes.getDeps, collectKids_plainC13 ks hp, if_true] at s2
+    rw [C09.C09_tagified_no_tobj ks htag] at s3
+    simp only [e1] at s3 ⊢
+    simp only [tagListOf] at s1 s2 s3 hcls ⊢
+    simp only [ok_bind, pure_eq_ok, s1, hcls, s2, s3, Bool.false_eq_true, if_false]
+    rfl)
+
+/-- `HTMLTextDocument.render(lib_prefix=, include_version=)` as the source has it = `textDocRender`, for every text, every
+    placeholder (None: TypeError from `str.replace`, after everything else has run) and every list of dependency objects
+    `e d` of which only this is assumed: `d.name` is the name, `str(d.version)` the version text, and
+    `d.as_html_tags(lib_prefix=, include_version=)` returns a TagList of plain nodes `asTags d` (`HTMLDependency.as_html_tags`
+    is not translated: Py/PrimC13.lean `pyAsHtmlTagsC13`).  What is tied: the listing script (only when there are
+    dependencies; `name[version]` joined by `;`; `Tag("script", …, type=…)` through `pyMkTagC13`), the tags of every
+    dependency in order, appended through the translated `TagList.append` / `extend` (`src_TagList_append` /
+    `src_TagList_extend`), rendered by the translated `TagList.render`, put in place of the **first** occurrence of the
+    placeholder (`pyReplaceFirstC13` = `replaceFirst`), and the answer `{"dependencies": …, "html": …}`. -/
+theorem src_textdoc_renderC13 (h : HTMLTextDocument_render_available = true) (hR : TagList_render_available = true)
+    (hi : TagList_init_available = true) (hap : TagList_append_available = true) (hex : TagList_extend_available = true)
+    (htc : tagchilds_to_tagnodes_available = true) (hfl : util_flatten_available = true)
+    (hfr : util_flatten_recurse_available = true) (hitn : is_tag_node_available = true)
+    (ht1 : Tag_tagify_available = true) (ht2 : TagList_tagify_available = true)
+    (hd1 : Tag_get_dependencies_available = true) (hd2 : TagList_get_dependencies_available = true)
+    (hr : resolve_dependencies_available = true)
+    (hg1 : Tag_get_html_string_available = true) (hg2 : TagList_get_html_string_available = true)
+    (hn : normalize_text_available = true) (he : html_escape_available = true) (hs : HTML_as_string_available = true)
+    (cfg : Cfg) (ht : keysPlain cfg.textTbl = true) (ha : keysPlain cfg.attrTbl = true)
+    (cls : String) (html : Str) (ds : List SDep) (e : SDep → PVal) (asTags : SDep → Nodes) (lp iv : PVal) (ph : Option Str)
+    (hname : ∀ d ∈ ds, pyGetAttr (e d) "name" = .ok (.str d.info.name))
+    (hver : ∀ d ∈ ds, ∃ v, pyGetAttr (e d) "version" = .ok v ∧ pyStrC13 v = .ok (.str d.info.version))
+    (htags : ∀ d ∈ ds, pyAsHtmlTagsC13 (e d) lp iv = .ok (tagListOf (embNodes (asTags d))))
+    (hplain : ∀ d ∈ ds, plainKidsC13 (asTags d) = true)
+    (fuel : Nat) (hf : 2 * kidsDepth (headNodes asTags ds) + 7 ≤ fuel) :
+    HTMLTextDocument_render (globalsOf cfg) fuel (textDocObjC13 cls html (ds.map e) (optStrC13 ph)) lp iv
+      = embRes (fun r => .dict [(['d', 'e', 'p', 'e', 'n', 'd', 'e', 'n', 'c', 'i', 'e', 's'], .list (ds.map e)),
+                                (['h', 't', 'm', 'l'], .str r)])
+          (textDocRender cfg asTags html ds ph) := by
+  first
+  | exact absurd h (by decide)
+  | skip
+  all_goals (
+    obtain ⟨f, rfl⟩ : ∃ f, fuel = f + 1 := ⟨fuel - 1, by omega⟩
+    rw [HTMLTextDocument_render]
+    have g1 : pyGetAttr (textDocObjC13 cls html (ds.map e) (optStrC13 ph)) "_deps" = .ok (.list (ds.map e)) := rfl
+    have g2 : pyGetAttr (textDocObjC13 cls html (ds.map e) (optStrC13 ph)) "_html" = .ok (.str html) := rfl
+    have g3 : pyGetAttr (textDocObjC13 cls html (ds.map e) (optStrC13 ph)) "_deps_replace_pattern" = .ok (optStrC13 ph) := rfl
+    have i0 : TagList_init (globalsOf cfg) f (PVal.obj "TagList" []) (PVal.tuple []) = .ok (tagListOf []) := by
+      have := src_TagList_init hi htc hfl hfr hitn (globalsOf cfg) [] rfl f (by simp [Args.ofList, argsFdepth]; omega)
+      simpa [init_emptyC13, embRes, embTL_tlOfC13] using this
+    -- the child-list operations on the values that occur
+    have happ : ∀ n : Node, TagList_append (globalsOf cfg) f (tagListOf []) (embNode n) (PVal.tuple [])
+        = .ok (tagListOf [embNode n]) := by
+      intro n
+      have := src_TagList_append hap hex htc hfl hfr hitn (globalsOf cfg) (tlOfC13 []) (.node n) [] rfl f
+        (by simp [Args.ofList, argsFdepth, argFdepth]; omega)
+      simpa [append_nodeC13, embOut, embTL_tlOfC13, embA] using this
+    have hext : ∀ ns : List Node, TagList_extend (globalsOf cfg) f (tagListOf (ns.map embNode))
+          (.list (ds.map fun d => tagListOf (embNodes (asTags d))))
+        = .ok (tagListOf ((ns ++ (ds.map asTags).flatMap Nodes.toList).map embNode)) := by
+      intro ns
+      have := src_TagList_extend hex htc hfl hfr hitn (globalsOf cfg) (tlOfC13 ns) (tlsArgC13 (ds.map asTags))
+        (argRep_tlsArgC13 _) f (by have := iterDepth_tlsArgC13 (ds.map asTags); omega)
+      simpa [extend_tlsArgC13, embOut, embTL_tlOfC13, embA_tlsArgC13, List.map_map, Function.comp_def] using this
+    have hhead : ((if ds.isEmpty then [] else [listingNode ds]) ++ (ds.map asTags).flatMap Nodes.toList).map embNode
+        = embNodes (headNodes asTags ds) := by
+      rw [embNodes_toList, toList_headNodesC13]
+    have hrender := src_taglist_render_plainC13 hR ht1 ht2 hd1 hd2 hr hg1 hg2 hn he hs cfg ht ha (headNodes asTags ds)
+      (plainKids_headNodesC13 asTags ds hplain) f (by omega)
+    have hlen : pyLen (PVal.list (ds.map e)) = .ok (.int (ds.length : Nat)) := by simp [pyLen]
+    have hgt : pyGt (PVal.int (ds.length : Nat)) (PVal.int 0) = .ok (.bool (!ds.isEmpty)) := by
+      cases ds <;> simp [pyGt]
+    -- the model's answer
+    have hmodel : embRes (fun r => PVal.dict [(['d', 'e', 'p', 'e', 'n', 'd', 'e', 'n', 'c', 'i', 'e', 's'], .list (ds.map e)),
+          (['h', 't', 'm', 'l'], .str r)]) (textDocRender cfg asTags html ds ph)
+        = (pyReplaceFirstC13 (.str html) (optStrC13 ph) (.str (renderList cfg (headNodes asTags ds) 0 ['\n'] true true))
+            >>= fun x => .ok (PVal.dict [(['d', 'e', 'p', 'e', 'n', 'd', 'e', 'n', 'c', 'i', 'e', 's'], .list (ds.map e)),
+              (['h', 't', 'm', 'l'], x)])) := by
+      cases ph <;> rfl
+    -- everything after the listing script: the second comprehension, `extend`, `render()`, the replacement, the answer
+    have tail : ∀ (ns : List Node) (F : PVal → List PVal → PyM (ForInStep (List PVal))) (K : List PVal → PyM PVal),
+        ns = (if ds.isEmpty then [] else [listingNode ds]) →
+        (∀ d ∈ ds, ∀ s, F (e d) s = .ok (.yield (s ++ [tagListOf (embNodes (asTags d))]))) →
+        (∀ s, K s = (TagList_extend (globalsOf cfg) f (tagListOf (ns.map embNode)) (.list s) >>= fun t =>
+                      TagList_render (globalsOf cfg) f t >>= fun r => pyGetItem r (.str ['h', 't', 'm', 'l']) >>= fun x =>
+                      pyReplaceFirstC13 (.str html) (optStrC13 ph) x >>= fun y =>
+                      .ok (PVal.dict [(['d', 'e', 'p', 'e', 'n', 'd', 'e', 'n', 'c', 'i', 'e', 's'], .list (ds.map e)),
+                        (['h', 't', 'm', 'l'], y)]))) →
+        (forIn (ds.map e) [] F >>= K)
+          = embRes (fun r => PVal.dict [(['d', 'e', 'p', 'e', 'n', 'd', 'e', 'n', 'c', 'i', 'e', 's'], .list (ds.map e)),
+              (['h', 't', 'm', 'l'], .str r)]) (textDocRender cfg asTags html ds ph) := by
+      intro ns F K hns hF hK
+      refine collect_loop_kC13 (fun s => s) e (fun d => tagListOf (embNodes (asTags d))) ds F
+        (fun d hd s => ⟨_, hF d hd s, rfl⟩) K _ [] (fun s hs => ?_)
+      simp only [List.nil_append] at hs
+      subst hs
+      rw [hK, hext, hns, hhead, hmodel]
+      simp only [ok_bind, hrender]
+      rfl
+    simp only [g1, g2, g3, i0, ok_bind, pure_eq_ok, pyIter_list, hlen, hgt, truthy_bool]
+    cases hemp : ds.isEmpty
+    · -- some dependencies: the listing script first
+      simp only [Bool.not_false, if_true]
+      refine collect_loop_kC13 (fun s => s) e (fun d => PVal.str (d.info.name ++ '[' :: d.info.version ++ [']'])) ds _
+        ?step _ _ [] (fun s hs => ?k)
+      case step =>
+        intro d hd s
+        obtain ⟨v, hv1, hv2⟩ := hver d hd
+        exact ⟨_, by simp only [hname d hd, hv1, hv2, ok_bind, pyAdd_strC13, List.append_assoc, List.singleton_append], rfl⟩
+      case k =>
+        simp only [List.nil_append] at hs
+        subst hs
+        have hj := pyJoin_strsC13 [';'] (ds.map fun d => d.info.name ++ '[' :: d.info.version ++ [']'])
+        simp only [List.map_map, Function.comp_def] at hj
+        simp only [hj, ok_bind, pyMkTag_listingC13, happ]
+        exact tail [listingNode ds] _ _ (by simp [hemp]) (fun d hd s => by simp only [htags d hd, ok_bind]) (fun s => rfl)
+    · -- no dependency: nothing is listed
+      simp only [Bool.not_true, Bool.false_eq_true, if_false]
+      exact tail [] _ _ (by simp [hemp]) (fun d hd s => by simp only [htags d hd, ok_bind]) (fun s => rfl))
+
+/-- a dependency object that carries what `render` reads: its name, its version, and the record of `as_html_tags` for the
+    argument pair (the hypotheses of `src_textdoc_renderC13` are met by such objects, whatever other attributes they have) -/
+def embDepTagsC13 (asTags : SDep → Nodes) (lp iv : PVal) (rk : Nat) (d : SDep) : PVal :=
+  .obj "HTMLDependency" [("name", .str d.info.name), ("version", versionObjC10b rk d.info.version),
+    ("as_html_tags", .list [.tuple [lp, iv, tagListOf (embNodes (asTags d))]])]
+
+/-- … for these objects, `lib_prefix` None or a `str`, `include_version` a `bool` -/
+theorem src_textdoc_render_objC13 (h : HTMLTextDocument_render_available = true) (hR : TagList_render_available = true)
+    (hi : TagList_init_available = true) (hap : TagList_append_available = true) (hex : TagList_extend_available = true)
+    (htc : tagchilds_to_tagnodes_available = true) (hfl : util_flatten_available = true)
+    (hfr : util_flatten_recurse_available = true) (hitn : is_tag_node_available = true)
+    (ht1 : Tag_tagify_available = true) (ht2 : TagList_tagify_available = true)
+    (hd1 : Tag_get_dependencies_available = true) (hd2 : TagList_get_dependencies_available = true)
+    (hr : resolve_dependencies_available = true)
+    (hg1 : Tag_get_html_string_available = true) (hg2 : TagList_get_html_string_available = true)
+    (hn : normalize_text_available = true) (he : html_escape_available = true) (hs : HTML_as_string_available = true)
+    (cfg : Cfg) (ht : keysPlain cfg.textTbl = true) (ha : keysPlain cfg.attrTbl = true)
+    (cls : String) (html : Str) (ds : List SDep) (asTags : SDep → Nodes) (lp : Option Str) (iv : Bool) (ph : Option Str)
+    (rk : SDep → Nat) (hplain : ∀ d ∈ ds, plainKidsC13 (asTags d) = true)
+    (fuel : Nat) (hf : 2 * kidsDepth (headNodes asTags ds) + 7 ≤ fuel) :
+    HTMLTextDocument_render (globalsOf cfg) fuel
+        (textDocObjC13 cls html (ds.map fun d => embDepTagsC13 asTags (optStrC13 lp) (.bool iv) (rk d) d) (optStrC13 ph))
+        (optStrC13 lp) (.bool iv)
+      = embRes (fun r => .dict [(['d', 'e', 'p', 'e', 'n', 'd', 'e', 'n', 'c', 'i', 'e', 's'],
+                                  .list (ds.map fun d => embDepTagsC13 asTags (optStrC13 lp) (.bool iv) (rk d) d)),
+                                (['h', 't', 'm', 'l'], .str r)])
+          (textDocRender cfg asTags html ds ph) := by
+  refine src_textdoc_renderC13 h hR hi hap hex htc hfl hfr hitn ht1 ht2 hd1 hd2 hr hg1 hg2 hn he hs cfg ht ha cls html ds _
+    asTags _ _ ph (fun d _ => rfl) (fun d _ => ⟨_, rfl, rfl⟩) (fun d _ => ?_) hplain fuel hf
+  cases lp <;> cases iv <;> simp [pyAsHtmlTagsC13, embDepTagsC13, fieldGet?, lookupTagsC13, sameArgC13, optStrC13]
 
 end HtmlVerif.SrcTie
